@@ -12,6 +12,7 @@
 #include "compat.h"
 
 #include <stdlib.h>
+#include <stdio.h>
 #include <string.h>
 #include <errno.h>
 
@@ -283,6 +284,11 @@ int sqfs_file_open(sqfs_file_t **out, const char *filename, sqfs_u32 flags)
 	if (ret) {
 		os_error_t err = get_os_error_state();
 		sqfs_native_file_close(fd);
+
+		/* do not leave behind a file that was just created */
+		if (!(flags & SQFS_FILE_OPEN_READ_ONLY))
+			remove(filename);
+
 		set_os_error_state(err);
 		return ret;
 	}
